@@ -88,6 +88,28 @@ Uses(e) ==
     [] e.k = "call" -> Uses(e.f) \cup SeqUnion([i \in DOMAIN e.a |-> Uses(e.a[i])])
     [] OTHER -> {}
 
+\* identifiers read somewhere in a block (shadowing ignored: an over-approximation, used only to decide that a name is NOT used)
+RECURSIVE BlockUses(_)
+StmtUses(s) ==
+  CASE s.k = "var" -> SeqUnion([i \in DOMAIN s.init |-> Uses(s.init[i])])
+    [] s.k = "assign" -> Uses(s.v)
+    [] s.k \in {"expr", "go"} -> Uses(s.e)
+    [] s.k = "return" -> SeqUnion([i \in DOMAIN s.e |-> Uses(s.e[i])])
+    [] s.k = "fassign" -> Uses(s.o) \cup Uses(s.v)
+    [] s.k = "passign" -> Uses(s.p) \cup Uses(s.v)
+    [] s.k = "iassign" -> Uses(s.a) \cup Uses(s.i) \cup Uses(s.v)
+    [] s.k = "if" -> Uses(s.c) \cup BlockUses(s.then) \cup SeqUnion([i \in DOMAIN s.else |-> BlockUses(s.else[i])])
+    [] s.k = "for" -> BlockUses(s.body)
+    [] s.k = "switch" -> Uses(s.e) \cup SeqUnion([i \in DOMAIN s.cases |-> Uses(s.cases[i].v) \cup BlockUses(s.cases[i].b)])
+                         \cup SeqUnion([i \in DOMAIN s.default |-> BlockUses(s.default[i])])
+    [] s.k = "tswitch" -> Uses(s.e) \cup SeqUnion([i \in DOMAIN s.cases |-> BlockUses(s.cases[i].b)])
+                          \cup SeqUnion([i \in DOMAIN s.default |-> BlockUses(s.default[i])])
+    [] OTHER -> {}
+BlockUses(b) == SeqUnion([i \in DOMAIN Blocks[b + 1] |-> StmtUses(Blocks[b + 1][i])])
+\* `switch x := e.(type)`: x must be used in at least one clause ("x declared and not used" otherwise)
+TsBindUnused(s) == s.bind # <<>> /\ s.bind[1] \notin (SeqUnion([i \in DOMAIN s.cases |-> BlockUses(s.cases[i].b)])
+                                                      \cup SeqUnion([i \in DOMAIN s.default |-> BlockUses(s.default[i])]))
+
 FnType(f) == [k |-> "func", ps |-> [i \in DOMAIN f.params |-> f.params[i].t], r |-> f.ret]
 FieldIdx(d, fn) == {i \in DOMAIN d.fields : d.fields[i].n = fn}
 ValidType(t) == TRUE
@@ -317,7 +339,8 @@ CheckStmt(s) ==
              imposs == {i \in DOMAIN s.cases : ~IsErr(t) /\ IsIface(t) /\ ~Implements(s.cases[i].v, t)}
              dup == \E i, j \in DOMAIN s.cases : i < j /\ Ident(s.cases[i].v, s.cases[j].v) IN
          /\ errs' = IF IsErr(t) THEN Err(t.why) ELSE IF ~IsIface(t) THEN Err("type switch on non-interface")
-                    ELSE IF imposs # {} THEN Err("impossible type switch case") ELSE IF dup THEN Err("duplicate case in type switch") ELSE errs
+                    ELSE IF imposs # {} THEN Err("impossible type switch case") ELSE IF dup THEN Err("duplicate case in type switch")
+                    ELSE IF TsBindUnused(s) THEN Err("declared and not used: " \o s.bind[1]) ELSE errs
          /\ ctl' = c2 /\ env' = MarkAll(env, Uses(s.e)) \o [i \in 1..n |-> sc(n + 1 - i)] /\ UNCHANGED <<pid, fi, done>>
     [] OTHER -> /\ errs' = Err("unsupported statement " \o s.k) /\ ctl' = c1 /\ UNCHANGED <<pid, fi, env, done>>
 
@@ -331,13 +354,38 @@ Step ==
           /\ fi' = IF Len(ctl) = 1 THEN fi + 1 ELSE fi
           /\ UNCHANGED <<pid, done>>
 
+\* every type name mentioned by a declaration (struct fields, aliases, interface methods, signatures) is basic, declared, or
+\* a member of an imported package
+RECURSIVE NamesIn(_)
+NamesIn(t) ==
+  CASE t.k = "named" -> {t.n}
+    [] t.k \in {"ptr", "slice", "array"} -> NamesIn(t.e)
+    [] t.k = "func" -> SeqUnion([i \in DOMAIN t.ps |-> NamesIn(t.ps[i])]) \cup SeqUnion([i \in DOMAIN t.r |-> NamesIn(t.r[i])])
+    [] OTHER -> {}
+DeclNames(d) ==
+  CASE d.k = "struct" -> SeqUnion([i \in DOMAIN d.fields |-> NamesIn(d.fields[i].t)])
+    [] d.k = "alias" -> NamesIn(d.t)
+    [] d.k = "iface" -> SeqUnion([i \in DOMAIN d.methods |-> SeqUnion([j \in DOMAIN d.methods[i].ps |-> NamesIn(d.methods[i].ps[j])])
+                                                            \cup SeqUnion([j \in DOMAIN d.methods[i].r |-> NamesIn(d.methods[i].r[j])])])
+    [] OTHER -> {}
+SigNames(f) == SeqUnion([i \in DOMAIN f.params |-> NamesIn(f.params[i].t)]) \cup SeqUnion([i \in DOMAIN f.ret |-> NamesIn(f.ret[i])])
+\* qualified names (time.Time) are members of imported packages; the parser lists them in the record
+QualifiedNames == IF "qualtypes" \in DOMAIN Progs[pid] THEN {Progs[pid].qualtypes[i] : i \in DOMAIN Progs[pid].qualtypes} ELSE {}
+KnownTypeName(n) == n \in Basic \/ n \in DOMAIN P.types \/ n = "error"
+UndeclaredTypeNames ==
+  {n \in UNION {DeclNames(P.types[d]) : d \in DOMAIN P.types} \cup UNION {SigNames(P.funcs[f]) : f \in DOMAIN P.funcs}
+            \cup UNION {SigNames(P.methods[i]) : i \in DOMAIN P.methods} : ~KnownTypeName(n)}
+
 Finish ==
   /\ ~done /\ ctl = <<>> /\ fi > Len(P.funcorder)
   /\ done' = TRUE
   /\ errs' = LET unusedimp == {i \in DOMAIN P.imports : P.imports[i].path \notin {Progs[pid].pkguse[j] : j \in DOMAIN Progs[pid].pkguse}}
-                 dupnames == \E n \in DOMAIN P.types : n \in DOMAIN P.funcs IN
+                 dupnames == \E n \in DOMAIN P.types : n \in DOMAIN P.funcs
+                 undecl == {n \in UndeclaredTypeNames : n \notin QualifiedNames}
+             IN
              IF unusedimp # {} THEN Append(errs, [fn |-> "", why |-> "imported and not used"])
-             ELSE IF dupnames THEN Append(errs, [fn |-> "", why |-> "name declared as type and func"]) ELSE errs
+             ELSE IF dupnames THEN Append(errs, [fn |-> "", why |-> "name declared as type and func"])
+             ELSE IF undecl # {} THEN Append(errs, [fn |-> "", why |-> "undefined: " \o (CHOOSE n \in undecl : TRUE)]) ELSE errs
   /\ UNCHANGED <<pid, fi, ctl, env>>
 
 Init == pid \in 1..Len(Progs) /\ fi = 1 /\ ctl = <<>> /\ env = <<>> /\ errs = <<>> /\ done = FALSE
